@@ -229,3 +229,40 @@ def selftest(problems):
             problems.append('Condition.notify without the lock accepted by ' + name)
         except RuntimeError:
             pass
+
+
+class line_points:
+    """Context manager: every source line executed in the given code objects becomes a yield
+    point of the scheduler (line-level preemption for selected functions).  Uses sys.monitoring
+    tool id 5 with LOCAL line events, so nothing else is slowed down."""
+    TOOL = 5
+
+    def __init__(self, codes):
+        self.codes = [c for c in codes if c is not None]
+        self.ok = False
+
+    def __enter__(self):
+        import sys
+        mon = sys.monitoring
+        try:
+            mon.use_tool_id(self.TOOL, 'zverif-lines')
+        except ValueError:
+            mon.free_tool_id(self.TOOL)
+            mon.use_tool_id(self.TOOL, 'zverif-lines')
+
+        def cb(code, line):
+            SCHED.point('line', '%s:%d' % (code.co_qualname, line))
+        mon.register_callback(self.TOOL, mon.events.LINE, cb)
+        for c in self.codes:
+            mon.set_local_events(self.TOOL, c, mon.events.LINE)
+        self.ok = True
+        return self
+
+    def __exit__(self, *a):
+        import sys
+        mon = sys.monitoring
+        for c in self.codes:
+            mon.set_local_events(self.TOOL, c, 0)
+        mon.register_callback(self.TOOL, mon.events.LINE, None)
+        mon.free_tool_id(self.TOOL)
+        return False
